@@ -15,6 +15,7 @@ returns an error gave the records `out` (each with the id of the input it came f
 -/
 import Hts.Lemmas.MergerTop
 import Hts.Lemmas.MergerUnique
+import Hts.Lemmas.MergerHeaderBridge
 namespace Hts.Props.C18
 open Hts.Model.Merger
 
@@ -22,7 +23,7 @@ variable (H : Heap) {custom : Option Less} {linkFn : LinkFn} {inputs : List Inpu
   {out : List (Nat × Rec)} {fin : Option Term}
 
 /-! ### the merged stream ends: size + 1 calls of Read reach the final error -/
-theorem merge_terminates (hm : newMerger custom linkFn inputs = .ok m) :
+theorem merge_terminates (hm : newMerger custom (some linkFn) inputs = .ok m) :
     ∃ out t, m.readAll H = (out, some t) := by
   cases hl : lessOf custom inputs with
   | none => exact ⟨_, _, readAll_cat H hm hl⟩
@@ -35,7 +36,7 @@ theorem merge_terminates (hm : newMerger custom linkFn inputs = .ok m) :
 
 /-- when merging by a sort order (whatever the inputs do), or when concatenating inputs that all end
 cleanly: the output is a permutation of the records the inputs deliver -/
-theorem merge_perm (hm : newMerger custom linkFn inputs = .ok m) (hr : m.readAll H = (out, fin))
+theorem merge_perm (hm : newMerger custom (some linkFn) inputs = .ok m) (hr : m.readAll H = (out, fin))
     (h : (lessOf custom inputs).isSome ∨ ∀ inp, inp ∈ inputs → inp.src.term = .eof) :
     out.Perm (deliveredBy linkFn inputs) := by
   cases hl : lessOf custom inputs with
@@ -59,7 +60,7 @@ theorem merge_perm (hm : newMerger custom linkFn inputs = .ok m) (hr : m.readAll
     exact List.Perm.refl _
 
 /-- in every mode, also with failing inputs: nothing is returned that no input delivered -/
-theorem merge_nothing_else (hm : newMerger custom linkFn inputs = .ok m) (hr : m.readAll H = (out, fin)) :
+theorem merge_nothing_else (hm : newMerger custom (some linkFn) inputs = .ok m) (hr : m.readAll H = (out, fin)) :
     ∀ p, p ∈ out → p ∈ deliveredBy linkFn inputs := by
   cases hl : lessOf custom inputs with
   | some less =>
@@ -73,10 +74,22 @@ theorem merge_nothing_else (hm : newMerger custom linkFn inputs = .ok m) (hr : m
     rw [this.1] at hp
     exact (catSpec_prefix _ _).subset hp
 
+/-- spelled out: a returned record is a record its input delivers IN FRONT OF that input's first error
+(`Src.rest`), re-linked; what a reader would deliver after a record-level error (`Src.later`) is never
+returned, in any mode -/
+theorem merge_returns_only_records_in_front_of_errors (hm : newMerger custom (some linkFn) inputs = .ok m)
+    (hr : m.readAll H = (out, fin)) :
+    ∀ p, p ∈ out → ∃ inp r, inputs[p.1]? = some inp ∧ r ∈ inp.src.rest ∧
+      p.2 = relink (linksOf linkFn inputs) p.1 r := by
+  intro p hp
+  obtain ⟨i, s, r, hmem, hrm, rfl⟩ := (mem_delivered _ _ p).1 (merge_nothing_else H hm hr p hp)
+  obtain ⟨inp, hget, rfl⟩ := (mem_srcsOf inputs i s).1 hmem
+  exact ⟨inp, r, hget, hrm, rfl⟩
+
 /-! ### concatenation mode (sort order unsorted, or unknown with a nil less) -/
 
 /-- the output is the inputs one after the other -/
-theorem merge_concatenates (hm : newMerger custom linkFn inputs = .ok m) (hr : m.readAll H = (out, fin))
+theorem merge_concatenates (hm : newMerger custom (some linkFn) inputs = .ok m) (hr : m.readAll H = (out, fin))
     (hl : lessOf custom inputs = none) (hc : ∀ inp, inp ∈ inputs → inp.src.term = .eof) :
     out = deliveredBy linkFn inputs ∧ fin = some .eof := by
   have hc' : ∀ p, p ∈ srcsOf inputs → p.2.term = .eof := by
@@ -89,7 +102,7 @@ theorem merge_concatenates (hm : newMerger custom linkFn inputs = .ok m) (hr : m
   exact ⟨this.1, this.2⟩
 
 /-- with a failing input the output is an initial part of that concatenation -/
-theorem merge_concatenation_prefix (hm : newMerger custom linkFn inputs = .ok m) (hr : m.readAll H = (out, fin))
+theorem merge_concatenation_prefix (hm : newMerger custom (some linkFn) inputs = .ok m) (hr : m.readAll H = (out, fin))
     (hl : lessOf custom inputs = none) : out <+: deliveredBy linkFn inputs := by
   have := readAll_cat H hm hl
   rw [hr] at this
@@ -99,7 +112,7 @@ theorem merge_concatenation_prefix (hm : newMerger custom linkFn inputs = .ok m)
 
 /-- precisely: concatenation stops at the first failing input — the output is everything of the inputs in
 front of it followed by what it delivers, and the error returned is its error -/
-theorem merge_concatenation_stops_at_first_error (hm : newMerger custom linkFn inputs = .ok m)
+theorem merge_concatenation_stops_at_first_error (hm : newMerger custom (some linkFn) inputs = .ok m)
     (hr : m.readAll H = (out, fin)) (hl : lessOf custom inputs = none) (e : Nat) (hf : fin = some (.err e)) :
     ∃ pre p post, srcsOf inputs = pre ++ p :: post ∧ (∀ q, q ∈ pre → q.2.term = .eof) ∧ p.2.term = .err e ∧
       out = delivered (linksOf linkFn inputs) (pre ++ [p]) := by
@@ -113,7 +126,7 @@ theorem merge_concatenation_stops_at_first_error (hm : newMerger custom linkFn i
 
 /-- if `less` is a strict weak order and every input (re-linked) is sorted by it, the output is sorted by
 `less` with ties between inputs resolved by input id — the order of the heap -/
-theorem merge_sorted_ties {less : Less} (hm : newMerger custom linkFn inputs = .ok m) (hr : m.readAll H = (out, fin))
+theorem merge_sorted_ties {less : Less} (hm : newMerger custom (some linkFn) inputs = .ok m) (hr : m.readAll H = (out, fin))
     (hl : lessOf custom inputs = some less) (sw : StrictWeak less)
     (hs : ∀ i s, (i, s) ∈ srcsOf inputs → SortedBy less (s.rest.map (relink (linksOf linkFn inputs) i))) :
     SortedBy (pairLess less) out := by
@@ -129,7 +142,7 @@ theorem merge_sorted_ties {less : Less} (hm : newMerger custom linkFn inputs = .
     rw [List.pairwise_map] at this ⊢
     exact this.imp fun h => by rw [pairLess_same_id]; exact h
 
-theorem merge_sorted {less : Less} (hm : newMerger custom linkFn inputs = .ok m) (hr : m.readAll H = (out, fin))
+theorem merge_sorted {less : Less} (hm : newMerger custom (some linkFn) inputs = .ok m) (hr : m.readAll H = (out, fin))
     (hl : lessOf custom inputs = some less) (sw : StrictWeak less)
     (hs : ∀ i s, (i, s) ∈ srcsOf inputs → SortedBy less (s.rest.map (relink (linksOf linkFn inputs) i))) :
     SortedBy less (out.map (·.2)) := by
@@ -141,7 +154,7 @@ theorem merge_sorted {less : Less} (hm : newMerger custom linkFn inputs = .ok m)
 /-- the relative order of the records of one input is preserved: the records of input `i` in the
 output are an initial part of what input `i` delivers, and all of it when merging by a sort order or
 when the merged stream ended with io.EOF -/
-theorem merge_stable_per_input (hm : newMerger custom linkFn inputs = .ok m) (hr : m.readAll H = (out, fin))
+theorem merge_stable_per_input (hm : newMerger custom (some linkFn) inputs = .ok m) (hr : m.readAll H = (out, fin))
     (i : Nat) (s : Src) (hi : (i, s) ∈ srcsOf inputs) :
     out.filter (fun p => p.1 == i) <+: tagged (linksOf linkFn inputs) i s.rest ∧
     ((lessOf custom inputs).isSome ∨ fin = some .eof →
@@ -180,7 +193,7 @@ theorem merge_stable_per_input (hm : newMerger custom linkFn inputs = .ok m) (hr
 /-! ### how the merged stream ends -/
 
 /-- the error that ends the merged stream, when it is not io.EOF, is the read error of an input -/
-theorem merge_error_is_an_inputs (hm : newMerger custom linkFn inputs = .ok m) (hr : m.readAll H = (out, fin))
+theorem merge_error_is_an_inputs (hm : newMerger custom (some linkFn) inputs = .ok m) (hr : m.readAll H = (out, fin))
     (e : Nat) (hf : fin = some (.err e)) : ∃ inp, inp ∈ inputs ∧ inp.src.term = .err e := by
   cases hl : lessOf custom inputs with
   | some less =>
@@ -203,7 +216,7 @@ theorem merge_error_is_an_inputs (hm : newMerger custom linkFn inputs = .ok m) (
     exact ⟨inp, hi, by rw [hs]; exact hpt⟩
 
 /-- io.EOF only after all inputs ended cleanly — and then every record of every input has been returned -/
-theorem merge_eof_only_after_all (hm : newMerger custom linkFn inputs = .ok m) (hr : m.readAll H = (out, fin))
+theorem merge_eof_only_after_all (hm : newMerger custom (some linkFn) inputs = .ok m) (hr : m.readAll H = (out, fin))
     (hf : fin = some .eof) :
     (∀ inp, inp ∈ inputs → inp.src.term = .eof) ∧ out.Perm (deliveredBy linkFn inputs) := by
   have hall : ∀ inp, inp ∈ inputs → inp.src.term = .eof := by
@@ -231,7 +244,7 @@ theorem merge_eof_only_after_all (hm : newMerger custom linkFn inputs = .ok m) (
 
 /-- an input's read error is reported, not dropped: if some input fails, the merged stream ends with the
 read error of a failing input -/
-theorem merge_reports_error (hm : newMerger custom linkFn inputs = .ok m) (hr : m.readAll H = (out, fin))
+theorem merge_reports_error (hm : newMerger custom (some linkFn) inputs = .ok m) (hr : m.readAll H = (out, fin))
     (he : ∃ inp, inp ∈ inputs ∧ inp.src.term ≠ .eof) :
     ∃ e, fin = some (.err e) ∧ ∃ inp, inp ∈ inputs ∧ inp.src.term = .err e := by
   obtain ⟨out', t, ht⟩ := merge_terminates H hm
@@ -245,20 +258,15 @@ theorem merge_reports_error (hm : newMerger custom linkFn inputs = .ok m) (hr : 
 
 /-- when merging by a sort order, a failing input does not cost the records that could be read: they
 are all returned before the error -/
-theorem merge_sorted_returns_all_readable (hm : newMerger custom linkFn inputs = .ok m)
+theorem merge_sorted_returns_all_readable (hm : newMerger custom (some linkFn) inputs = .ok m)
     (hr : m.readAll H = (out, fin)) (hl : (lessOf custom inputs).isSome) :
     out.Perm (deliveredBy linkFn inputs) := merge_perm H hm hr (Or.inl hl)
 
 /-! ### references: every returned record's Ref and MateRef belong to the merged header, under the name
 they had in the source -/
 
-/-- the laws assumed of the link table (sam.MergeHeaders, property C07): reference `x` of source `i` is
-linked to a reference of the merged header with the same name.  For a single source (`links = none`)
-the merged header is the source header. -/
-def LinksOK (srcRefs : List (List Name)) (merged : List Name) (links : Option LinkFn) : Prop :=
-  ∀ (i : Nat) (names : List Name), srcRefs[i]? = some names → ∀ x : Nat, x < names.length →
-    (match links with | none => x | some l => l i x) < merged.length ∧
-    merged[(match links with | none => x | some l => l i x)]? = names[x]?
+-- `LinksOK` (the laws assumed of the link table) is defined in Hts.Lemmas.MergerTop; `links_law_from_C07` below
+-- derives it from the theorem C07 proves about sam.MergeHeaders.
 
 /-- what bam.Reader.Read guarantees: Ref and MateRef of a record are references of its own header -/
 def RefsInRange (srcRefs : List (List Name)) (inputs : List Input) : Prop :=
@@ -274,7 +282,7 @@ def OwnedAs (names merged : List Name) (src o : Option Nat) : Prop :=
   | some x => ∃ y, o = some y ∧ y < merged.length ∧ merged[y]? = names[x]?
 
 theorem merge_refs_owned (srcRefs : List (List Name)) (merged : List Name)
-    (hm : newMerger custom linkFn inputs = .ok m) (hr : m.readAll H = (out, fin))
+    (hm : newMerger custom (some linkFn) inputs = .ok m) (hr : m.readAll H = (out, fin))
     (hl : LinksOK srcRefs merged (linksOf linkFn inputs)) (hw : RefsInRange srcRefs inputs) :
     ∀ p, p ∈ out → ∃ inp names r, inputs[p.1]? = some inp ∧ srcRefs[p.1]? = some names ∧ r ∈ inp.src.rest ∧
       p.2.name = r.name ∧ p.2.pos = r.pos ∧ p.2.matePos = r.matePos ∧ p.2.uid = r.uid ∧
@@ -308,6 +316,21 @@ theorem merge_refs_owned (srcRefs : List (List Name)) (merged : List Name)
     · cases hx : r.mate with
       | none => rfl
       | some x => exact ⟨l i x, rfl, hlk x (hrmate x hx)⟩
+
+/-- the law `LinksOK` is not a free assumption: for two or more sources it follows from what property C07
+proves about its model of sam.MergeHeaders (`Hts.Model.Header.mergeHeaders_links`, C07's `LinksOk` over a heap
+of reference objects), with `linkFnOf` = the ID of the reference object a link points to and the reference
+names read off the same world; the sources' name lists are unchanged by the merge -/
+theorem links_law_from_C07 {w w' : Hts.Model.Header.World} (hw : Hts.Model.Header.WInv w) {srcs : List Nat}
+    {ls : List (List Nat)} (hs : ∀ s ∈ srcs, s < w.hdrs.length)
+    (hmh : Hts.Model.Header.mergeHeaders w srcs = (w', .ok, ls)) :
+    LinksOK (srcs.map (refNames w'.refs)) (refNames w'.refs w.hdrs.length) (some (linkFnOf w'.refs ls)) ∧
+    ∀ s ∈ srcs, refNames w'.refs s = refNames w.refs s := by
+  have hw' : Hts.Model.Header.WInv w' := by
+    have := Hts.Model.Header.winv_mergeHeaders hw srcs
+    rw [hmh] at this; exact this
+  obtain ⟨hl, hsame⟩ := Hts.Model.Header.mergeHeaders_links hw hs hmh
+  exact ⟨linksOK_of_header_LinksOk hw'.refs hl, fun s hs' => by unfold refNames; rw [hsame s hs']⟩
 
 /-! ### the orders of the declared sort orders -/
 
@@ -346,7 +369,7 @@ def KeySorted (l : List Rec) : Prop := l.Pairwise fun a b => ¬ keyLt (coordKey 
 /-- coordinate order: if every input, re-linked to the merged header, is sorted by (merged reference
 index, position) with unplaced records last, so is the output -/
 theorem merge_sorted_coordinate (i0 : Input) (tl : List Input) (hso : i0.so = .coordinate)
-    (hm : newMerger custom linkFn (i0 :: tl) = .ok m) (hr : m.readAll H = (out, fin))
+    (hm : newMerger custom (some linkFn) (i0 :: tl) = .ok m) (hr : m.readAll H = (out, fin))
     (hs : ∀ i s, (i, s) ∈ srcsOf (i0 :: tl) → KeySorted (s.rest.map (relink (linksOf linkFn (i0 :: tl)) i))) :
     KeySorted (out.map (·.2)) := by
   have := merge_sorted H hm hr (coordinate_uses_coordinate_order i0 tl hso) lessByCoordinate_strictWeak ?_
@@ -389,7 +412,7 @@ theorem relinked_sorted_of_monotone (l : LinkFn) (i : Nat) (rs : List Rec)
 /-- when merging by a strict weak order the output does not depend on the heap implementation: any two
 heaps satisfying the `Heap` laws give the same records in the same order and the same final error
 (the heap order is total on the heads of distinct inputs, so the minimal head is unique) -/
-theorem merge_heap_independent (H1 H2 : Heap) {less : Less} (hm : newMerger custom linkFn inputs = .ok m)
+theorem merge_heap_independent (H1 H2 : Heap) {less : Less} (hm : newMerger custom (some linkFn) inputs = .ok m)
     (hl : lessOf custom inputs = some less) (sw : StrictWeak less) : m.readAll H1 = m.readAll H2 := by
   obtain ⟨n1, hn1, hr1⟩ := readAll_sorted H1 hm hl
   obtain ⟨n2, hn2, hr2⟩ := readAll_sorted H2 hm hl
@@ -402,7 +425,7 @@ theorem merge_heap_independent (H1 H2 : Heap) {less : Less} (hm : newMerger cust
 /-- complete characterisation of the sorted modes: a list that is sorted by (less, input id), contains
 for every input exactly that input's records in that input's order, and nothing of any other id, IS the
 output — `merge_sorted_ties` and `merge_stable_per_input` leave no freedom -/
-theorem merge_is_the_stable_merge {less : Less} (hm : newMerger custom linkFn inputs = .ok m)
+theorem merge_is_the_stable_merge {less : Less} (hm : newMerger custom (some linkFn) inputs = .ok m)
     (hr : m.readAll H = (out, fin)) (hl : lessOf custom inputs = some less) (sw : StrictWeak less)
     (hs : ∀ i s, (i, s) ∈ srcsOf inputs → SortedBy less (s.rest.map (relink (linksOf linkFn inputs) i)))
     (spec : List (Nat × Rec)) (h1 : SortedBy (pairLess less) spec)
@@ -431,13 +454,24 @@ theorem read_after_final (m m' : Merger) (t : Term) (h : m.read H = (.fin t, m')
     m'.read H = (.fin t, m') := read_fin_again H m m' t h
 
 /-- NewMerger fails with io.EOF exactly when there is no input … -/
-theorem newMerger_fails_without_input :
-    newMerger custom linkFn inputs = .error .noSource ↔ inputs = [] := newMerger_noSource custom linkFn inputs
+theorem newMerger_fails_without_input (merged : Option LinkFn) :
+    newMerger custom merged inputs = .error .noSource ↔ inputs = [] := newMerger_noSource custom merged inputs
 
-/-- … and with "sort order mismatch" exactly when some input declares another sort order than the first -/
-theorem newMerger_fails_on_mismatch :
-    newMerger custom linkFn inputs = .error .sortOrderMismatch ↔
-      ∃ i0 tl, inputs = i0 :: tl ∧ ∃ inp, inp ∈ inputs ∧ inp.so ≠ i0.so := newMerger_mismatch custom linkFn inputs
+/-- … with "sort order mismatch" exactly when some input declares another sort order than the first … -/
+theorem newMerger_fails_on_mismatch (merged : Option LinkFn) :
+    newMerger custom merged inputs = .error .sortOrderMismatch ↔
+      ∃ i0 tl, inputs = i0 :: tl ∧ ∃ inp, inp ∈ inputs ∧ inp.so ≠ i0.so := newMerger_mismatch custom merged inputs
+
+/-- … and with the error of sam.MergeHeaders exactly when that failed (`merged = none`) for two or more
+inputs of one sort order; there is no other failure -/
+theorem newMerger_fails_on_header_merge (merged : Option LinkFn) :
+    newMerger custom merged inputs = .error .headerMerge ↔
+      merged = none ∧ 2 ≤ inputs.length ∧ ∃ i0 tl, inputs = i0 :: tl ∧ ∀ inp, inp ∈ inputs → inp.so = i0.so :=
+  newMerger_headerMerge custom merged inputs
+
+/-- for a single input the header merge is not consulted (sam.MergeHeaders returns that header and nil links) -/
+theorem newMerger_single_ignores_header (merged merged' : Option LinkFn) (i0 : Input) :
+    newMerger custom merged [i0] = newMerger custom merged' [i0] := newMerger_single custom merged merged' i0
 
 /-- for a strict weak order, sortedness is the same as "no record is below its predecessor" (which is
 what the oracle of the check evaluates on the implementation's output) -/
@@ -460,13 +494,13 @@ def exInputs : List Input :=
 
 def exLink : LinkFn := fun i x => if i = 0 then x else x + 1
 
-example : (match newMerger none exLink exInputs with
+example : (match newMerger none (some exLink) exInputs with
     | .ok m => (m.readAll scanHeap).1.map (fun p => (p.1, p.2.uid, p.2.ref, p.2.mate))
     | .error _ => []) =
     [(0, 0, some 0, some 1), (1, 0, some 1, some 2), (0, 1, some 1, none), (1, 1, some 2, some 1), (0, 2, none, none)] := by
   decide
 
-example : (match newMerger none exLink exInputs with
+example : (match newMerger none (some exLink) exInputs with
     | .ok m => (m.readAll scanHeap).2
     | .error _ => none) = some (.err 7) := by decide
 
@@ -489,5 +523,153 @@ example : ∀ i s, (i, s) ∈ srcsOf exInputs → KeySorted (s.rest.map (relink 
 
 example : StrictWeak (fun a b : Rec => decide (a.pos < b.pos)) :=
   ⟨fun a => by simp, fun a b c => by simp; omega, fun a b c => by simp; omega⟩
+
+
+/-! ### non-vacuity with three inputs: every hypothesis-carrying theorem instantiated
+
+Scenario A — three coordinate-sorted inputs with headers [z, a], [a, c], [z, c] (merged [z, a, c]) and
+interleaved keys, a tie between inputs 0 and 2 on (z, 5), an unplaced record, mates on other references;
+input 1 returns a record-level error (not sticky: one more record follows it) after three records. -/
+
+def aSrc1 : Src :=
+  { rest := [rA 4 (some 0) 1 (some 1) 0, rA 5 (some 0) 7 none 1, rA 6 (some 1) 0 (some 0) 2], term := .err 7,
+    later := [([rA 7 (some 1) 9 none 4], .eof)] }
+
+def aInputs : List Input :=
+  [ { so := .coordinate, src := { rest := [rA 1 (some 0) 5 (some 1) 0, rA 2 (some 1) 2 none 1, rA 3 none (-1) (some 0) 2], term := .eof } },
+    { so := .coordinate, src := aSrc1 },
+    { so := .coordinate, src := { rest := [rA 8 (some 0) 1 none 0, rA 9 (some 0) 5 (some 1) 1, rA 10 (some 1) 3 (some 1) 2], term := .eof } } ]
+
+def aLink : LinkFn := fun i x => if i = 0 then x else if i = 1 then x + 1 else 2 * x
+
+def aM : Merger :=
+  match newMerger none (some aLink) aInputs with
+  | .ok m => m
+  | .error _ => { links := none, mode := .cat [] none }
+
+def aOut : List (Nat × Rec) := (aM.readAll scanHeap).1
+def aFin : Option Term := (aM.readAll scanHeap).2
+
+def a_hm : newMerger none (some aLink) aInputs = .ok aM := rfl
+def a_hr : aM.readAll scanHeap = (aOut, aFin) := rfl
+def a_hl : lessOf none aInputs = some lessByCoordinate := rfl
+
+/-- what comes out: (input, uid, merged Ref, merged MateRef); the record behind the error (uid 4) does not -/
+example : aOut.map (fun p => (p.1, p.2.uid, p.2.ref, p.2.mate)) =
+    [(2, 0, some 0, none), (0, 0, some 0, some 1), (2, 1, some 0, some 2), (1, 0, some 1, some 2), (0, 1, some 1, none),
+     (1, 1, some 1, none), (1, 2, some 2, some 1), (2, 2, some 2, some 2), (0, 2, none, some 0)] := by decide
+example : aFin = some (.err 7) := by decide
+
+def a_hs : ∀ i s, (i, s) ∈ srcsOf aInputs →
+    SortedBy lessByCoordinate (s.rest.map (relink (linksOf aLink aInputs) i)) := by
+  intro i s h
+  simp [srcsOf, enumFrom, aInputs] at h
+  rcases h with ⟨rfl, rfl⟩ | ⟨rfl, rfl⟩ | ⟨rfl, rfl⟩ <;>
+    simp [SortedBy, relink, linksOf, aInputs, aSrc1, aLink, rA, lessByCoordinate]
+
+def a_hkey : ∀ i s, (i, s) ∈ srcsOf aInputs → KeySorted (s.rest.map (relink (linksOf aLink aInputs) i)) := by
+  intro i s h
+  simp [srcsOf, enumFrom, aInputs] at h
+  rcases h with ⟨rfl, rfl⟩ | ⟨rfl, rfl⟩ | ⟨rfl, rfl⟩ <;>
+    simp [KeySorted, relink, linksOf, aInputs, aSrc1, aLink, rA, keyLt, coordKey]
+
+def aSrcRefs : List (List Name) := [[[122], [97]], [[97], [99]], [[122], [99]]]
+def aMerged : List Name := [[122], [97], [99]]
+
+def a_links : LinksOK aSrcRefs aMerged (linksOf aLink aInputs) := by
+  intro i names hn x hx
+  match i, hn with
+  | 0, hn => simp [aSrcRefs] at hn; subst hn; match x, hx with
+    | 0, _ => decide
+    | 1, _ => decide
+  | 1, hn => simp [aSrcRefs] at hn; subst hn; match x, hx with
+    | 0, _ => decide
+    | 1, _ => decide
+  | 2, hn => simp [aSrcRefs] at hn; subst hn; match x, hx with
+    | 0, _ => decide
+    | 1, _ => decide
+  | i + 3, hn => simp [aSrcRefs] at hn
+
+def a_range : RefsInRange aSrcRefs aInputs := by
+  intro i inp hi
+  match i, hi with
+  | 0, hi => simp [aInputs] at hi; subst hi; exact ⟨_, rfl, by simp [rA]⟩
+  | 1, hi => simp [aInputs] at hi; subst hi; exact ⟨_, rfl, by simp [rA, aSrc1]⟩
+  | 2, hi => simp [aInputs] at hi; subst hi; exact ⟨_, rfl, by simp [rA]⟩
+  | i + 3, hi => simp [aInputs] at hi
+
+/-- the theorems applied to scenario A: all their hypotheses hold together -/
+example : aOut.Perm (deliveredBy aLink aInputs) := merge_perm scanHeap a_hm a_hr (Or.inl (by simp [a_hl]))
+example : SortedBy (pairLess lessByCoordinate) aOut :=
+  merge_sorted_ties scanHeap a_hm a_hr a_hl lessByCoordinate_strictWeak a_hs
+example : SortedBy lessByCoordinate (aOut.map (·.2)) :=
+  merge_sorted scanHeap a_hm a_hr a_hl lessByCoordinate_strictWeak a_hs
+example : KeySorted (aOut.map (·.2)) := merge_sorted_coordinate scanHeap _ _ rfl a_hm a_hr a_hkey
+example : aOut.filter (fun p => p.1 == 1) = tagged (linksOf aLink aInputs) 1 aSrc1.rest :=
+  (merge_stable_per_input scanHeap a_hm a_hr 1 aSrc1 (by simp [srcsOf, enumFrom, aInputs])).2 (Or.inl (by simp [a_hl]))
+example : ∃ inp, inp ∈ aInputs ∧ inp.src.term = .err 7 :=
+  merge_error_is_an_inputs scanHeap a_hm a_hr 7 (by decide)
+example : ∃ e, aFin = some (.err e) ∧ ∃ inp, inp ∈ aInputs ∧ inp.src.term = .err e :=
+  merge_reports_error scanHeap a_hm a_hr ⟨_, List.mem_cons_of_mem _ List.mem_cons_self, by simp [aSrc1]⟩
+example : ∀ p, p ∈ aOut → ∃ inp names r, aInputs[p.1]? = some inp ∧ aSrcRefs[p.1]? = some names ∧ r ∈ inp.src.rest ∧
+      p.2.name = r.name ∧ p.2.pos = r.pos ∧ p.2.matePos = r.matePos ∧ p.2.uid = r.uid ∧
+      OwnedAs names aMerged r.ref p.2.ref ∧ OwnedAs names aMerged r.mate p.2.mate :=
+  merge_refs_owned scanHeap aSrcRefs aMerged a_hm a_hr a_links a_range
+example : aM.readAll scanHeap = aM.readAll scanHeapR :=
+  merge_heap_independent scanHeap scanHeapR a_hm a_hl lessByCoordinate_strictWeak
+example (spec : List (Nat × Rec)) (h1 : SortedBy (pairLess lessByCoordinate) spec)
+    (h2 : ∀ i s, (i, s) ∈ srcsOf aInputs → spec.filter (fun p => p.1 == i) = tagged (linksOf aLink aInputs) i s.rest)
+    (h3 : ∀ p, p ∈ spec → ∃ s, (p.1, s) ∈ srcsOf aInputs) : spec = aOut :=
+  merge_is_the_stable_merge scanHeap a_hm a_hr a_hl lessByCoordinate_strictWeak a_hs spec h1 h2 h3
+/-- … and the hypotheses of `merge_is_the_stable_merge` about `spec` are satisfiable: by the output itself -/
+example : SortedBy (pairLess lessByCoordinate) aOut ∧
+    (∀ i s, (i, s) ∈ srcsOf aInputs → aOut.filter (fun p => p.1 == i) = tagged (linksOf aLink aInputs) i s.rest) ∧
+    (∀ p, p ∈ aOut → ∃ s, (p.1, s) ∈ srcsOf aInputs) :=
+  ⟨merge_sorted_ties scanHeap a_hm a_hr a_hl lessByCoordinate_strictWeak a_hs,
+   fun i s hi => (merge_stable_per_input scanHeap a_hm a_hr i s hi).2 (Or.inl (by simp [a_hl])),
+   fun p hp => by
+     obtain ⟨j, s, r, hmem, _, rfl⟩ := (mem_delivered _ _ p).1 (merge_nothing_else scanHeap a_hm a_hr p hp)
+     exact ⟨s, hmem⟩⟩
+/-- `relinked_sorted_of_monotone`: input 1 (header [a, c]) sorted by its own header, links 0 ↦ 1, 1 ↦ 2 monotone -/
+example : KeySorted ([rA 4 (some 0) 1 (some 1) 0, rA 5 (some 0) 7 none 1, rA 6 (some 1) 0 (some 0) 2].map (relink (some aLink) 1)) :=
+  relinked_sorted_of_monotone aLink 1 _ (by intro x y h; simp [aLink]; omega) (by simp [KeySorted, rA, keyLt, coordKey])
+
+/-! Scenario B — three unsorted inputs, concatenated; all end cleanly.
+Scenario C — the same with the second input returning a record-level error (not sticky) after its first record. -/
+
+def bInputs : List Input :=
+  [ { so := .unsorted, src := { rest := [rA 3 (some 1) 9 none 0, rA 1 (some 0) 2 (some 1) 1], term := .eof } },
+    { so := .unsorted, src := { rest := [rA 2 (some 0) 5 none 0, rA 2 none (-1) none 1], term := .eof } },
+    { so := .unsorted, src := { rest := [rA 1 (some 1) 1 (some 0) 0], term := .eof } } ]
+
+def cInputs : List Input :=
+  [ { so := .unsorted, src := { rest := [rA 3 (some 1) 9 none 0, rA 1 (some 0) 2 (some 1) 1], term := .eof } },
+    { so := .unsorted, src := { rest := [rA 2 (some 0) 5 none 0], term := .err 4, later := [([rA 2 none (-1) none 2], .eof)] } },
+    { so := .unsorted, src := { rest := [rA 1 (some 1) 1 (some 0) 0], term := .err 9 } } ]
+
+def bM : Merger := match newMerger none (some aLink) bInputs with | .ok m => m | .error _ => { links := none, mode := .cat [] none }
+def cM : Merger := match newMerger none (some aLink) cInputs with | .ok m => m | .error _ => { links := none, mode := .cat [] none }
+def b_hm : newMerger none (some aLink) bInputs = .ok bM := rfl
+def c_hm : newMerger none (some aLink) cInputs = .ok cM := rfl
+def b_hr : bM.readAll scanHeap = ((bM.readAll scanHeap).1, (bM.readAll scanHeap).2) := rfl
+def c_hr : cM.readAll scanHeap = ((cM.readAll scanHeap).1, (cM.readAll scanHeap).2) := rfl
+
+example : (bM.readAll scanHeap).1.map (fun p => (p.1, p.2.uid)) = [(0, 0), (0, 1), (1, 0), (1, 1), (2, 0)] := by decide
+example : (cM.readAll scanHeap).1.map (fun p => (p.1, p.2.uid)) = [(0, 0), (0, 1), (1, 0)] := by decide
+example : (cM.readAll scanHeap).2 = some (.err 4) := by decide
+
+example : (bM.readAll scanHeap).1 = deliveredBy aLink bInputs ∧ (bM.readAll scanHeap).2 = some .eof :=
+  merge_concatenates scanHeap b_hm b_hr rfl (by simp [bInputs])
+example : (∀ inp, inp ∈ bInputs → inp.src.term = .eof) ∧ (bM.readAll scanHeap).1.Perm (deliveredBy aLink bInputs) :=
+  merge_eof_only_after_all scanHeap b_hm b_hr (by decide)
+example : (cM.readAll scanHeap).1 <+: deliveredBy aLink cInputs :=
+  merge_concatenation_prefix scanHeap c_hm c_hr rfl
+example : ∃ pre p post, srcsOf cInputs = pre ++ p :: post ∧ (∀ q, q ∈ pre → q.2.term = .eof) ∧ p.2.term = .err 4 ∧
+      (cM.readAll scanHeap).1 = delivered (linksOf aLink cInputs) (pre ++ [p]) :=
+  merge_concatenation_stops_at_first_error scanHeap c_hm c_hr rfl 4 (by decide)
+/-- `read_after_final` on scenario C: after the record-level error of input 1 the merger is asked again -/
+example : ∀ m1, (cM.advance scanHeap 3).read scanHeap = (.fin (.err 4), m1) → m1.read scanHeap = (.fin (.err 4), m1) :=
+  fun m1 h => read_after_final scanHeap _ m1 _ h
+example : ∃ m1, (cM.advance scanHeap 3).read scanHeap = (.fin (.err 4), m1) := ⟨_, rfl⟩
 
 end Hts.Props.C18
